@@ -206,7 +206,11 @@ Definition test_node (c : ctx) (ax : axis) (t : ntest) (n : nat) : bool :=
   | TText => nkind_eqb k KText && negb (cx_strip c (cx_doc c) n)
   | TPi None => nkind_eqb k KPi
   | TPi (Some tg) => nkind_eqb k KPi && str_eqb (n_qname nd) tg
-  | TNode => negb (nkind_eqb k KText) || negb (cx_strip c (cx_doc c) n)
+  | TNode =>
+      match ax with
+      | AxAttribute => nkind_eqb k KAttr        (* testAttributeTotallyWild: no namespace declarations *)
+      | _ => negb (nkind_eqb k KText) || negb (cx_strip c (cx_doc c) n)
+      end
   | TRoot => nkind_eqb k KDoc
   | TName ns local =>
       let local_or_name := match n_local nd with [] => n_qname nd | l => l end in
@@ -442,7 +446,9 @@ Definition f_substring (s : str) (a2 : dbl) (a3 : option dbl) : str :=
   let start :=
     match second with
     | S754_nan | S754_infinity false => len
-    | _ => if d_le second d_one then 0 else d_to_nat_trunc (d_sub second d_one)
+    | _ => if d_le second d_one then 0
+           else let r := d_sub second d_one in
+                if d_le (d_of_nat len) r then len else d_to_nat_trunc r
     end in
   if Nat.leb len start then [] else
   let maxlen := len - start in
@@ -456,7 +462,8 @@ Definition f_substring (s : str) (a2 : dbl) (a3 : option dbl) : str :=
         | _ =>
             let total := d_add (d_round third) second in
             if d_le total (d_of_nat (S start)) then 0
-            else Nat.min maxlen (d_to_nat_trunc total - S start)
+            else let sl := d_sub total (d_of_nat (S start)) in
+                 if d_lt (d_of_nat maxlen) sl then maxlen else d_to_nat_trunc sl
         end
     end in
   firstn sublen (skipn start s).
